@@ -4,41 +4,52 @@
 and evaluates the property monitors on the implementation's own outputs (violations).
 -/
 import MysyncModel.Replay.Util
+import Std.Data.HashSet
 import MysyncModel.Replay.C12
+import MysyncModel.Replay.C13
 
 open Lean Replay
 
 def handlers : List (String × Handler) := [
-  ("c12", Replay.C12.handle)
+  ("c12", Replay.C12.handle),
+  ("c13pair", Replay.C13.handlePair),
+  ("c13iv", Replay.C13.handleIv),
+  ("c14", Replay.C13.handleList)
 ]
 
-partial def loop (h : IO.FS.Stream) (a : Acc) : IO Acc := do
+partial def loop (h : IO.FS.Stream) (seen : Std.HashSet UInt64) (a : Acc) : IO Acc := do
   let line ← h.getLine
   if line.isEmpty then return a
   let line := line.trimAscii.toString
-  if line.isEmpty then loop h a else
+  if line.isEmpty then loop h seen a else
   let a := { a with lines := a.lines + 1 }
   match Json.parse line with
-  | .error e => loop h { a with malformed := a.malformed + 1, firstMismatch := a.firstMismatch ++ [s!"unparsable line: {e}"] }
+  | .error e => loop h seen { a with malformed := a.malformed + 1, firstMismatch := a.firstMismatch ++ [s!"unparsable line: {e}"] }
   | .ok j =>
     match jStr j "k" with
-    | .error _ => loop h { a with malformed := a.malformed + 1 }
+    | .error _ => loop h seen { a with malformed := a.malformed + 1 }
     | .ok k =>
       match handlers.lookup k with
-      | none => loop h { a with malformed := a.malformed + 1, firstMismatch := a.firstMismatch ++ [s!"unknown kind {k}"] }
+      | none => loop h seen { a with malformed := a.malformed + 1, firstMismatch := a.firstMismatch ++ [s!"unknown kind {k}"] }
       | some f =>
-        match f j (a.bumpKind k) with
-        | .ok a' => loop h a'
+        match f j { (a.bumpKind k) with pendingNt := none } with
+        | .ok a' =>
+          match a'.pendingNt with
+          | none => loop h seen a'
+          | some nt =>
+            let key := hash line
+            if seen.contains key then loop h seen a'
+            else loop h (seen.insert key) { a' with distinct := a'.distinct + 1, nontrivial := a'.nontrivial + (if nt then 1 else 0) }
         | .error e =>
           let a := { a with malformed := a.malformed + 1 }
           let a := if a.firstMismatch.length < 5 then { a with firstMismatch := a.firstMismatch ++ [s!"{k}: bad record: {e}"] } else a
-          loop h a
+          loop h seen a
 
 def main (args : List String) : IO UInt32 := do
   match args with
   | [path] =>
     let h ← IO.FS.Handle.mk path .read
-    let a ← loop (IO.FS.Stream.ofHandle h) {}
+    let a ← loop (IO.FS.Stream.ofHandle h) {} {}
     IO.println (summaryJson a).compress
     return (if a.mismatches == 0 && a.violations == 0 && a.malformed == 0 then 0 else 1)
   | _ =>
